@@ -64,4 +64,14 @@ theorem C15_removal_is_effective {s : State} (h : sys.Reach s) (t d o i : Nat) (
     rw [List.count_erase_self] at h5
     have := hh.T d o i; omega
 
+/-- a reachable quiescent state in which the long-lived operands carry the hooks of a live composite … -/
+example : ∃ s, sys.Reach s ∧ (s.sigs 2).jobs = [.orHook 0 0] ∧ (s.sigs 3).jobs = [.orHook 0 1] ∧ (s.sigs 4).jobs = [.orCleanup 0]
+    ∧ (s.sigs 4).alive = true ∧ (s.sigs 4).go = false ∧ s.todo 0 = [] ∧ s.todo 1 = [] :=
+  ⟨demoO2.getD init, demoO_reach.1, by decide +kernel, by decide +kernel, by decide +kernel, by decide +kernel, by decide +kernel,
+    by decide +kernel, by decide +kernel⟩
+
+/-- … and after the composite has been triggered through `a`, neither operand holds anything -/
+example : ∃ s, sys.Reach s ∧ (s.sigs 4).go = true ∧ (s.sigs 2).jobs = [] ∧ (s.sigs 3).jobs = [] ∧ (s.sigs 3).go = false :=
+  ⟨demoO4.getD init, demoO_reach.2, by decide +kernel, by decide +kernel, by decide +kernel, by decide +kernel⟩
+
 end MoThreads.Composite
